@@ -45,6 +45,8 @@ type pair struct {
 	extras []extraPeer
 	armed  *atomic.Bool
 	quit   chan struct{}
+	view   *chains // rollback.go: the chains as they are after the requester's tip was rolled back (nil: no rollback)
+	served *int64  // rollback.go: number of getBlocksFromId requests the responder received
 }
 
 // startPair replays the requester chain on a fresh node, starts the responder and connects the two
@@ -63,6 +65,7 @@ func startPair(c *chains, b behav, served []*blockchain.Block) (pr *pair, out st
 		}
 	}
 	armed, quit := &atomic.Bool{}, make(chan struct{})
+	b.dlCount = new(int64)
 	resp, err := newResponder(c, b, served, armed, quit)
 	if err != nil {
 		q.Close()
@@ -74,7 +77,7 @@ func startPair(c *chains, b behav, served []*blockchain.Block) (pr *pair, out st
 		q.Close()
 		return nil, "setup-failed", []corr.Fail{fail("c19-setup", "requester connection: %v", err)}
 	}
-	pr = &pair{q: q, resp: resp, armed: armed, quit: quit}
+	pr = &pair{q: q, resp: resp, armed: armed, quit: quit, served: b.dlCount}
 	ok := false
 	defer func() {
 		if !ok {
@@ -82,6 +85,14 @@ func startPair(c *chains, b behav, served []*blockchain.Block) (pr *pair, out st
 			pr = nil
 		}
 	}()
+	if b.rbK > 0 {
+		// rollback.go: the requester's tip is rolled back through a real path before it meets the peer
+		view, err := rollBack(c, q, b)
+		if err != nil {
+			return pr, "setup-failed", []corr.Fail{fail("c19-setup", "rollback %c%d: %v", b.rbVia, b.rbK, err)}
+		}
+		pr.view = view
+	}
 	addrs, err := resp.MultiAddress()
 	if err != nil || len(addrs) == 0 {
 		return pr, "setup-failed", []corr.Fail{fail("c19-setup", "responder address: %v", err)}
